@@ -106,6 +106,12 @@ def build_T20(tree):
     joined = [n for n in ast.walk(fn) if isinstance(n, ast.Assign) and _norm(n) == "self.PixelData=b''.join(frames)"]
     if len(joined) != 1:
         raise Unsupported("self.PixelData = b''.join(frames) not found")
+    # results of a worker pool are gathered by position (submission order), not in completion order
+    gathered = [n for n in ast.walk(fn) if isinstance(n, ast.Assign)
+                and _norm(n) == 'frames=[fut.result()forfutinframe_futures]']
+    submits = [n for n in ast.walk(fn) if isinstance(n, ast.Expr) and _norm(n) == 'frame_futures.append(future)']
+    if len(gathered) != 1 or len(submits) != 1:
+        raise Unsupported('frames = [fut.result() for fut in frame_futures] / frame_futures.append(future) not found')
     f = ast.Return(value=flush.test)
     ast.fix_missing_locations(f)
     t3 = translate_block([f], 'segFlushGuard', [], {'len(remainder_pixels)': ('int', 'remainderLen')},
